@@ -56,6 +56,7 @@ type Summary struct {
 	OracleFails   []OracleFailure `json:"oracle_failures"`
 	ModelErrors   int             `json:"model_errors"`
 	TotalDisagreements int        `json:"total_disagreements"`
+	Crashes       int             `json:"worker_crashes"`
 	WallS         float64         `json:"wall_s"`
 	Exhaustive    bool            `json:"exhaustive"`
 }
@@ -98,11 +99,192 @@ func runModel(modelBin string, reqs []string) ([]string, error) {
 	return lines, nil
 }
 
-func runStream(s *Stream, modelBin string, seed int64, n int, thorough bool, corpus []string) (*Summary, error) {
-	t0 := time.Now()
+// ---------------------------------------------------------------------------------------
+// crash isolation: the code under test reinterprets memory through unsafe casts, so a wrong
+// static type can kill the process with a fatal signal that recover() cannot catch.  Cases are
+// therefore generated and evaluated in a worker process; every guarded item announces itself in
+// a progress file first.  When the worker dies, the parent records the announced item as a
+// `process-crash` oracle failure and restarts the worker with that item skipped.
+
+// hangTimeout: a guarded item that shows no progress for this long is killed and reported.
+var hangTimeout = 90 * time.Second
+
+var (
+	guardSkip     = map[int]bool{}
+	guardCounter  = 0
+	guardProgress *os.File
+	guardCurrent  string
+	guardPanics   []Case // items whose evaluation panicked (recovered by guardEnd)
+)
+
+// guardBegin announces an item; it returns true when the item crashed an earlier worker and
+// must be skipped (the caller then emits crashCase).
+func guardBegin(human string) bool {
+	idx := guardCounter
+	guardCounter++
+	if guardSkip[idx] {
+		return true
+	}
+	guardCurrent = human
+	if guardProgress != nil {
+		h := human
+		if len(h) > 400 {
+			h = h[:400]
+		}
+		fmt.Fprintf(guardProgress, "BEGIN\t%d\t%s\n", idx, strings.ReplaceAll(h, "\n", "\\n"))
+	}
+	return false
+}
+
+// guardEnd must be the deferred call itself (`defer guardEnd()`): it also recovers a panic that
+// escaped the item (the harness's own walk of an ill-typed value, for instance) and records the
+// item as a crash instead of losing the worker.
+func guardEnd() {
+	if r := recover(); r != nil {
+		c := crashCase(guardCurrent)
+		c.Oracle = fmt.Sprintf("evaluating this input panicked outside every error handler: %v", r)
+		guardPanics = append(guardPanics, c)
+	}
+	if guardProgress != nil {
+		fmt.Fprintf(guardProgress, "END\n")
+	}
+}
+
+func crashCase(human string) Case {
+	return Case{Human: human, Want: "process-crash", Tags: []string{"process-crash"}, Nontriv: true,
+		Oracle: "the process was killed by a fatal fault (e.g. a mis-typed memory access) while this input was evaluated", OracleID: "process-crash"}
+}
+
+// workerMain generates the cases of a stream and writes them as JSON.
+func workerMain(s *Stream, seed int64, n int, thorough bool, skip, progress, casesOut string) {
+	for _, x := range strings.Split(skip, ",") {
+		if x != "" {
+			var i int
+			fmt.Sscanf(x, "%d", &i)
+			guardSkip[i] = true
+		}
+	}
+	if progress != "" {
+		f, err := os.OpenFile(progress, os.O_CREATE|os.O_WRONLY|os.O_TRUNC, 0644)
+		if err == nil {
+			guardProgress = f
+		}
+	}
 	r := rand.New(rand.NewSource(seed))
 	cases := s.Gen(r, n, thorough)
-	sum := &Summary{Stream: s.Name, Seed: seed, Rule: s.Rule, Dist: map[string]int{}}
+	cases = append(cases, guardPanics...)
+	f, err := os.Create(casesOut)
+	if err != nil {
+		fmt.Fprintln(os.Stderr, err)
+		os.Exit(2)
+	}
+	w := bufio.NewWriterSize(f, 1<<20)
+	enc := json.NewEncoder(w)
+	for i := range cases {
+		if err := enc.Encode(&cases[i]); err != nil {
+			fmt.Fprintln(os.Stderr, err)
+			os.Exit(2)
+		}
+	}
+	w.Flush()
+	f.Close()
+}
+
+// generateIsolated runs the worker, restarting it around crashing items.
+func generateIsolated(s *Stream, seed int64, n int, thorough bool) ([]Case, int, error) {
+	dir, err := os.MkdirTemp("", "corr-worker-")
+	if err != nil {
+		return nil, 0, err
+	}
+	defer os.RemoveAll(dir)
+	progress := dir + "/progress"
+	casesFile := dir + "/cases.json"
+	var skip []string
+	hangs := map[string]bool{}
+	_ = hangs
+	for attempt := 0; attempt < 40; attempt++ {
+		args := []string{"-worker", "-stream", s.Name, "-seed", fmt.Sprint(seed), "-n", fmt.Sprint(n),
+			"-skip", strings.Join(skip, ","), "-progress", progress, "-cases", casesFile}
+		if thorough {
+			args = append(args, "-thorough")
+		}
+		cmd := exec.Command(os.Args[0], args...)
+		var stderr bytes.Buffer
+		cmd.Stderr = &stderr
+		cmd.Stdout = os.Stdout
+		hung := false
+		err := func() error {
+			if err := cmd.Start(); err != nil {
+				return err
+			}
+			done := make(chan error, 1)
+			go func() { done <- cmd.Wait() }()
+			lastSize, lastChange := int64(-1), time.Now()
+			tick := time.NewTicker(500 * time.Millisecond)
+			defer tick.Stop()
+			for {
+				select {
+				case e := <-done:
+					return e
+				case <-tick.C:
+					if st, e := os.Stat(progress); e == nil && st.Size() != lastSize {
+						lastSize, lastChange = st.Size(), time.Now()
+					}
+					// an item that makes no progress for this long is treated as a hang
+					if time.Since(lastChange) > hangTimeout {
+						hung = true
+						cmd.Process.Kill()
+					}
+				}
+			}
+		}()
+		if err == nil {
+			f, err := os.Open(casesFile)
+			if err != nil {
+				return nil, len(skip), err
+			}
+			defer f.Close()
+			var cases []Case
+			dec := json.NewDecoder(bufio.NewReaderSize(f, 1<<20))
+			for dec.More() {
+				var c Case
+				if err := dec.Decode(&c); err != nil {
+					return nil, len(skip), err
+				}
+				cases = append(cases, c)
+			}
+			return cases, len(skip), nil
+		}
+		// the worker died: which item was running?
+		b, _ := os.ReadFile(progress)
+		lines := strings.Split(strings.TrimRight(string(b), "\n"), "\n")
+		last := ""
+		if len(lines) > 0 {
+			last = lines[len(lines)-1]
+		}
+		if !strings.HasPrefix(last, "BEGIN\t") {
+			tail := stderr.String()
+			if len(tail) > 3000 {
+				tail = tail[:3000]
+			}
+			return nil, len(skip), fmt.Errorf("worker died outside a guarded item (%v): %s", err, tail)
+		}
+		parts := strings.SplitN(last, "\t", 3)
+		skip = append(skip, parts[1])
+		if hung {
+			hangs[parts[1]] = true
+		}
+	}
+	return nil, len(skip), fmt.Errorf("worker crashed on more than 40 items")
+}
+
+func runStream(s *Stream, modelBin string, seed int64, n int, thorough bool, corpus []string) (*Summary, error) {
+	t0 := time.Now()
+	cases, crashes, err := generateIsolated(s, seed, n, thorough)
+	if err != nil {
+		return nil, err
+	}
+	sum := &Summary{Stream: s.Name, Seed: seed, Rule: s.Rule, Dist: map[string]int{}, Crashes: crashes}
 	reqs := make([]string, 0, len(cases))
 	idx := make([]int, len(cases))
 	for i, c := range cases {
